@@ -372,8 +372,9 @@ class Conn:
 
     @property
     def manager_closed(self):
-        """The manager closed (or reset) its end."""
-        return self.c.rx_fin or self.c.rx_rst
+        """The manager closed its end (what the peer sees as FIN/RST; read from the simulated
+        kernel so that it is also known for clients that have already gone away)."""
+        return self.m.closed
 
     def send(self, data: bytes):
         self.c.sendall(data)
@@ -391,6 +392,7 @@ class Sim:
         install()
         import pyrtma.manager as mm
 
+        FakeSocket._ids = 0  # socket identities (and thereby set iteration orders) are a function of the history
         self.net = Net()
         SOCK.net = self.net
         SOCK.label = "mgr"
